@@ -155,7 +155,10 @@ def scan_hash_iteration(crate):
 
 AMBIENT = ("std::time::SystemTime::now", "std::time::Instant::now", "std::env::var", "std::env::var_os", "std::env::vars",
            "std::env::vars_os", "std::env::args", "std::env::current_dir", "std::thread::current", "std::process::id",
-           "std::hash::RandomState::new", "std::collections::hash_map::RandomState::new", "std::env::temp_dir")
+           "std::hash::RandomState::new", "std::collections::hash_map::RandomState::new", "std::env::temp_dir",
+           # .. and state of the process that outlives the call: a second call starts from what the first one left
+           "std::env::set_current_dir", "std::env::set_var", "std::env::remove_var", "std::path::absolute", "std::fs::canonicalize",
+           "std::path::Path::canonicalize")
 
 
 def scan_ambient(crate):
